@@ -230,14 +230,30 @@ def case_key(c):
 
 
 def gen_cases(ctx):
-    """run the Gen configurations; returns the de-duplicated cases"""
-    runs = [('Gen_ParserFixed.cfg', 4), (ctx.pick('Gen_ParserStmt.cfg', 'Gen_ParserStmtT.cfg'), 16),
-            (ctx.pick('Gen_ParserSpine.cfg', 'Gen_ParserSpineT.cfg'), 16)]
+    """run the Gen configurations (concurrently: the fixed families come from a single state, i.e. a single TLC
+    worker); returns the de-duplicated cases"""
+    runs = [('Gen_ParserFixed.cfg', 2), (ctx.pick('Gen_ParserStmt.cfg', 'Gen_ParserStmtT.cfg'), ctx.pick(6, 16)),
+            (ctx.pick('Gen_ParserSpine.cfg', 'Gen_ParserSpineT.cfg'), ctx.pick(6, 16))]
+    results = [None] * len(runs)
+    errors = []
+
+    def gen(k):
+        try:
+            results[k] = ctx.tlc('Gen_Parser', runs[k][0], leg='GEN', workers=runs[k][1], timeout=ctx.pick(600, 3000), jvm=JVM)
+        except BaseException as ex:  # noqa
+            errors.append(ex)
+    threads = [threading.Thread(target=gen, args=(k,)) for k in range(len(runs))]
+    for t in threads:
+        t.start()
+        time.sleep(0.05)
+    for t in threads:
+        t.join()
+    if errors:
+        raise errors[0]
     seen = set()
     cases = []
     fams = {}
-    for cfg, w in runs:
-        res = ctx.tlc('Gen_Parser', cfg, leg='GEN', workers=w, timeout=ctx.pick(600, 3000), jvm=JVM)
+    for (cfg, w), res in zip(runs, results):
         if res.violated:
             raise core.MachineryError('generator %s: %s' % (cfg, res.violated))
         n0 = len(cases)
@@ -251,6 +267,7 @@ def gen_cases(ctx):
             cases.append(p)
             fams[p['fam']] = fams.get(p['fam'], 0) + 1
         ctx.log('generator %s: %d lines, %d new distinct token sequences' % (cfg, len(res.printed), len(cases) - n0))
+        res.printed = []
     return cases, fams
 
 
@@ -303,7 +320,7 @@ def s2c(ctx, parsers, cases, budget_tokens):
             # when the generated parser source is byte-identical to the shipped parser.py the two are the same
             # deterministic code: the derived one then runs on every 8th text here (and on every text of the C2S leg);
             # otherwise on every text
-            both = (not parsers.identical) or cid % 8 == 0 or c['fam'] not in ('spine', 'stmt', 'without')
+            both = (not parsers.identical) or cid % 8 == 0 or c['fam'] in ('corner', 'kwprefix', 'chain')
             nboth += both
             items.append((cid, text, expected, False, both))
             meta[cid] = (ci, text)
@@ -623,7 +640,7 @@ def run(ctx):
         cases, fams = gen_cases(ctx)
         ctx.leg('GEN', families=fams)
         if not only or 'S2C' in only:
-            s2c(ctx, parsers, cases, int(os.environ.get('VERIF_C06_TOKENS', ctx.pick(240000, 1500000))))
+            s2c(ctx, parsers, cases, int(os.environ.get('VERIF_C06_TOKENS', ctx.pick(200000, 1500000))))
         mc_join(mc_thread)
         mc_thread = None
         if not only or 'C2S' in only:
